@@ -104,6 +104,17 @@ Theorem C03_ring_pts_bearing : forall s k i,
 Proof. exact ring_pts_bearing. Qed.
 Print Assumptions C03_ring_pts_bearing.
 
+(* rings and wedges: the bearings of the generated points grow strictly with the index on both arcs
+   (the lists walk the index down, so along each list the bearings strictly decrease): angular order *)
+Theorem C03_ring_pts_angular_order : forall s k i1 i2,
+  -90 < lat (r_center s) < 90 -> 0 < r_inner s <= r_outer s -> r_outer s < PI * Rearth ->
+  (0 < k)%nat -> (i1 < i2)%nat -> (i2 <= k)%nat -> 0 <= r_amin s -> r_amin s < r_amax s -> r_amax s < 360 ->
+  (forall i, -90 < lat (ring_outer_pt s k i) < 90) -> (forall i, -90 < lat (ring_inner_pt s k i) < 90) ->
+  bearing_raw (r_center s) (ring_outer_pt s k i1) < bearing_raw (r_center s) (ring_outer_pt s k i2) /\
+  bearing_raw (r_center s) (ring_inner_pt s k i1) < bearing_raw (r_center s) (ring_inner_pt s k i2).
+Proof. exact ring_pts_angular_order. Qed.
+Print Assumptions C03_ring_pts_angular_order.
+
 (* --- k+1 points, walked from 2*pi down to 0, in angular order, first = last --- *)
 Theorem C03_circle_pts_shape : forall s k,
   length (circle_pts s k) = S k /\
